@@ -17,7 +17,7 @@ EMPTY_MSG = project.empty_msg("none")
 
 def base_event(eid, obj, kind):
     return {"id": eid, "obj": obj, "k": kind, "msg": EMPTY_MSG, "status": "ok", "warns": [],
-            "ser_eq": True, "intact": True, "cls": "", "completed_eq": True, "acc_eq": True, "expose_intact": True,
+            "ser_eq": True, "intact": True, "cls": "", "completed_eq": True, "acc_eq": True, "expose_intact": True, "unshared": True,
             "completed_acc": False}
 
 
@@ -103,6 +103,8 @@ def run_behaviour(bid, beh, seed, observe=None, expose=None):
                     status = "crash:BadReturn"
             ev.update(post=snap(o), status=status, warns=warns, ser_eq=(str(ro) == before),
                       intact=all(str(mm) == s0 for mm, s0, _ in live.values()),
+                      unshared=not (any(execute.shares(r, mm) for r in objs.values() for mm, _, _ in live.values())
+                                    or any(execute.shares(objs[x], objs[y]) for x in objs for y in objs if x < y)),
                       completed_acc=execute.completed_of(objs[o]))
             if expose:
                 ev["expose_intact"] = all(expose(mm, type(mm).__name__) == x0 for mm, _, x0 in live.values())
